@@ -90,7 +90,7 @@ theorem mscohere_ok {fft : ℕ → Array ℝ → Vec ℝ} {x y win : Array ℝ} 
     have hne : ¬ (x.size ≠ y.size) := not_not.mpr hs
     rw [if_neg hne] at h
     cases hp : plan x.size win.size nov nfft with
-    | error e => rw [hp] at h; simp [bind, Except.bind, pure, Except.pure] at h
+    | error e => rw [hp] at h; simp [bind, Except.bind] at h
     | ok pl =>
       refine ⟨pl, rfl, ?_⟩
       rw [hp] at h
@@ -564,6 +564,49 @@ theorem mscohere_scaled_copy {fft : ℕ → Array ℝ → Vec ℝ} {x y win : Ar
     ring
   rw [hC, hA, map_mul, Complex.normSq_ofReal, Complex.normSq_ofReal]
   field_simp
+
+/-! ## bridges to the neighbouring properties -/
+
+/-- the shape in which property C01 states its result (`Props/C01.lean`, `fftRN_eq`: the DFT of `padSeqR n y`, the input zero-padded
+or truncated to `n` samples) implies `IsDftR` -/
+theorem isDftR_of_pad (n : ℕ) (F : Array ℝ → Vec ℝ)
+    (h : ∀ (y : Array ℝ) (k : ℕ), k < n → Cx.toC (rd (F y) k) = dft n (fun i => if i < y.size ∧ i < n then seqR y i else 0) k) :
+    IsDftR n F := by
+  intro y k hk
+  rw [h y k hk]
+  apply dft_congr
+  intro i hi
+  by_cases hy : i < y.size
+  · simp [hy, hi]
+  · have : seqR y i = 0 := by unfold seqR rdR; simp [Array.getD, hy]
+    simp [hy, this]
+
+/-- complex counterpart (`fftCN_eq`, `padSeq`) -/
+theorem isDftC_of_pad (n : ℕ) (F : Vec ℝ → Vec ℝ)
+    (h : ∀ (y : Vec ℝ) (k : ℕ), k < n → Cx.toC (rd (F y) k) = dft n (fun i => if i < y.size ∧ i < n then seq y i else 0) k) :
+    IsDftC n F := by
+  intro y k hk
+  rw [h y k hk]
+  apply dft_congr
+  intro i hi
+  by_cases hy : i < y.size
+  · simp [hy, hi]
+  · have : seq y i = 0 := by unfold seq rd; simp [Array.getD, hy]
+    simp [hy, this]
+
+/-- an accepted transform size is a power of two (`ispow2` as the code computes it), hence even from 2 on: the hypothesis
+`2 ∣ nfft` of the theorems above holds for every accepted `nfft ≥ 2`, in particular on the property's range 8..4096 -/
+theorem accepted_pow2 {N L : ℕ} {nov nfft : ℤ} {pl : Spectrum.Plan} (h : plan N L nov nfft = .ok pl) :
+    nfft.toNat = 2 ^ nextpow2 nfft.toNat ∧ (2 ≤ nfft → 2 ∣ nfft.toNat) := by
+  obtain ⟨_, hp2, _⟩ := plan_ok h
+  have e : nfft.toNat = 2 ^ nextpow2 nfft.toNat := by
+    unfold ispow2 at hp2
+    rw [Nat.one_shiftLeft] at hp2
+    exact (beq_iff_eq.mp hp2).symm
+  refine ⟨e, fun h2 => ?_⟩
+  rcases hk : nextpow2 nfft.toNat with _ | k
+  · rw [hk] at e; omega
+  · rw [e, hk, pow_succ]; exact Dvd.intro_left _ rfl
 
 /-! ## non-vacuity -/
 
